@@ -169,7 +169,7 @@ class Worker:
 
     def _global_trace(self, frame, event, arg):
         fn = frame.f_code.co_filename
-        if self.ctl.internal and fn == self.ctl.bptk_file and frame.f_code.co_name in INTERNAL:
+        if (fn, frame.f_code.co_name) in self.ctl.internal_set and (self.ctl.park_filter is None or self.inside or self.ctl.park_filter(frame)):
             self.inside.append(id(frame))
             return self._internal_trace
         if self.inside and "BPTK_Py" in fn:
@@ -199,15 +199,18 @@ class Worker:
 
 
 class Controller:
-    def __init__(self, probe, anchors=None, required=None, park_filter=None):
+    def __init__(self, probe, anchors=None, required=None, park_filter=None, internal=None):
+        """internal: [(module, function name)] whose execution is scheduled line by line (default for the lock protocol of the
+        server: bptk.try_lock)"""
         self.park_filter = park_filter
         self.amap = anchor_map(anchors, required)
         self.files = {fn for fn, _ in self.amap}
-        self.internal = anchors is None     # the lock protocol of the server: try_lock is scheduled line by line
-        self.bptk_file = None
-        if self.internal:
+        if internal is None:
+            internal = [("BPTK_Py.bptk", name) for name in INTERNAL] if anchors is None else []
+        self.internal_set = {(importlib.import_module(mod).__file__, name) for mod, name in internal}
+        self.internal = bool(self.internal_set)
+        if anchors is None:
             install_coop_locks()
-            self.bptk_file = importlib.import_module("BPTK_Py.bptk").__file__
         self.cv = threading.Condition()
         self.workers = {}
         self.events = []        # [r, act, lock, clock]
